@@ -46,6 +46,9 @@ class Check:
         self.discharged = 0
         self.trusted_base = []
         self.only = None         # replay: report only this instance key
+        self.soft_twins = None   # see soften()
+        self.soft_cfg = None     # property-level table (sa/soft.py): dict(twins=[rule..], floor=n, soft=[rule..])
+        self.pending_soft = []   # deferred anchor-lost reports of soft shape rules
 
     # -------------------------------------------------------------- recording
     def ok(self, rule, key, where='', detail='', evals=1, nontrivial=True, sample=None):
@@ -69,6 +72,20 @@ class Check:
             return
         self.evaluations += evals
         self.obligations += 1
+        if kind == 'anchor-lost' and self.soft_cfg and not self.only and rule.split(':')[0] in self.soft_cfg['soft']:
+            self.evaluations -= evals
+            self.obligations -= 1
+            self.pending_soft.append(dict(rule=rule, key=key, where=where, detail=detail, evals=evals, construct=construct))
+            return
+        if kind == 'anchor-lost' and self._soft_ok():
+            # a shape rule did not recognise the code, but the functional rules that decide the same clauses on bounded
+            # families all passed on this tree: recorded, no alarm (see soften())
+            self.instances.append(dict(rule=rule, key=key, status='UNDECIDED-SHAPE', where=where,
+                                       detail='%s; clauses decided functionally by %s' % (_short(detail, 200), ', '.join(self.soft_twins))))
+            print('SKIP rule=%s key=%s shape not recognised (%s); clauses decided by %s' % (rule, key, _short(detail, 120), ', '.join(self.soft_twins)))
+            self.evaluations -= evals
+            self.obligations -= 1
+            return
         if (self.pid, key) in self.known:
             self.instances.append(dict(rule=rule, key=key, status='KNOWN-FINDING', where=where, detail=detail))
             self.known_hits.append(key)
@@ -95,6 +112,21 @@ class Check:
             tb = traceback.format_exc().strip().splitlines()
             self.anchor_lost(rule, key, '%s: %s @ %s' % (type(e).__name__, e, tb[-3].strip() if len(tb) >= 3 else ''))
         return None
+
+    def soften(self, twins):
+        """From here on, shape rules of this property are *soft*: `twins` are the keys of the functional / end-to-end rule
+        instances (already run) that decide the property's clauses by interpreting the code on bounded input families,
+        independently of its shape.  While every twin is OK on this tree, a shape rule that cannot find its anchors
+        (kind=anchor-lost: the code was rewritten) is recorded as UNDECIDED-SHAPE instead of raising an alarm - the clause is
+        still decided, by the twins.  A shape rule that recognises the code and finds it wrong reports a violation as before,
+        and if any twin is missing or failed every rule fails closed as before."""
+        self.soft_twins = list(twins)
+
+    def _soft_ok(self):
+        if not self.soft_twins or self.only:
+            return False
+        ok = {i['key'] for i in self.instances if i['status'] == 'OK'}
+        return all(t in ok for t in self.soft_twins)
 
     def guard_soft(self, rule, key, fn, twins):
         """guard() for a shape rule whose clause is also decided functionally (by interpretation, independent of code shape) by
@@ -136,7 +168,27 @@ class Check:
         return fn
 
     # -------------------------------------------------------------- finish
+    def resolve_soft(self):
+        """end of the property's run: deferred anchor-lost reports of soft shape rules (sa/soft.py)"""
+        if not self.pending_soft:
+            return
+        cfg = self.soft_cfg
+        tw = [i for i in self.instances if i['rule'].split(':')[0] in cfg['twins'] and ':floor:' not in i['key']]
+        ok = len(tw) >= cfg['floor'] and all(i['status'] == 'OK' for i in tw)
+        pend, self.pending_soft = self.pending_soft, []
+        cfg_saved, self.soft_cfg = self.soft_cfg, None          # report for real from here on
+        for p in pend:
+            if ok:
+                self.instances.append(dict(rule=p['rule'], key=p['key'], status='UNDECIDED-SHAPE', where=p['where'],
+                                           detail='%s; the clause is decided functionally by the %d OK instances of %s' % (_short(p['detail'], 200), len(tw), ', '.join(cfg['twins']))))
+                print('SKIP rule=%s key=%s shape not recognised (%s); clause decided functionally by %s (%d instances OK)' % (
+                    p['rule'], p['key'], _short(p['detail'], 100), ', '.join(cfg['twins']), len(tw)))
+            else:
+                self.violation(p['rule'], p['key'], where=p['where'], detail=p['detail'], kind='anchor-lost', evals=p['evals'], construct=p['construct'])
+        self.soft_cfg = cfg_saved
+
     def finish(self):
+        self.resolve_soft()
         wall = time.time() - self.t0
         cov = dict(
             evaluations=max(self.evaluations, 0),
